@@ -461,6 +461,27 @@ func rulesC07(c *Ctx) {
 	c.Rule("C07.c", "findPreemptionFenceRoot returns a queue only if it is the root, a preemption fence, or fenced by its maximum, otherwise asks the direct parent; victims are searched below the returned queue only")
 	if fn := c.MustFunc("C07.c", "objects.Queue.findPreemptionFenceRoot"); fn != nil {
 		n := 0
+		// locals assigned a test of the configured maximum against the projected usage
+		fenceFlags := map[types.Object]bool{}
+		ast.Inspect(fn.Decl.Body, func(nn ast.Node) bool {
+			as, ok := nn.(*ast.AssignStmt)
+			if !ok || len(as.Lhs) != 1 || len(as.Rhs) != 1 {
+				return true
+			}
+			uses := false
+			ast.Inspect(as.Rhs[0], func(m ast.Node) bool {
+				if cl, isC := m.(*ast.CallExpr); isC && p.IsCall(cl, "resources.Resource.StrictlyGreaterThanOrEqualsOnlyExisting", "resources.Resource.StrictlyGreaterThanOrEquals", "resources.Resource.FitIn", "resources.Resource.FitInMaxUndef") {
+					if Recv(cl) != nil && p.reaches(T(Recv(cl), p.StateAt(fn, cl)), "objects.Queue.GetMaxResource") {
+						uses = true
+					}
+				}
+				return true
+			})
+			if id, isID := as.Lhs[0].(*ast.Ident); isID && uses {
+				fenceFlags[p.ObjOf(id)] = true
+			}
+			return true
+		})
 		for _, ex := range p.returnsOf(fn) {
 			rs, ok := ex.Node.(*ast.ReturnStmt)
 			if !ok || len(rs.Results) != 1 {
@@ -474,7 +495,9 @@ func rulesC07(c *Ctx) {
 						cl, ok := unparen(x.E).(*ast.CallExpr)
 						return op == tokEQL && ok && p.IsCall(cl, "objects.Queue.GetPreemptionPolicy") && p.Src(y.E) == "policies.FencePreemptionPolicy"
 					}),
-					p.BoolAtom(true, func(t Term) bool { return p.Src(t.E) == "shouldFenceByMax" }),
+					// the max-fence flag: a local that is assigned the (negated) comparison of the configured
+					// maximum with the projected usage
+					p.BoolAtom(true, func(t Term) bool { return p.identIn(t.E, fenceFlags) }),
 				))
 				c.Check("C07.c", "fence root only for root / fence policy / max-fenced", rs, okF, "findPreemptionFenceRoot returns the queue itself without one of the three fence conditions; facts: %v", p.FactStrings(ex.State))
 			} else if cl, ok := unparen(rs.Results[0]).(*ast.CallExpr); ok && p.IsCall(cl, "objects.Queue.findPreemptionFenceRoot") {
@@ -485,7 +508,7 @@ func rulesC07(c *Ctx) {
 		c.Floor("C07.c", "returns of findPreemptionFenceRoot", n, 2)
 	}
 	if fn := c.MustFunc("C07.c", "objects.Queue.FindEligiblePreemptionVictims"); fn != nil {
-		calls := p.callsIn(fn, "objects.Queue.findEligiblePreemptionVictims")
+		calls := p.callsInShallow(fn, "objects.Queue.findEligiblePreemptionVictims") // the start of the search, not its recursion
 		for _, call := range calls {
 			d := p.DefOf(T(Recv(call), p.StateAt(fn, call)))
 			cl, ok := unparen(d.E).(*ast.CallExpr)
@@ -638,9 +661,11 @@ func rulesC08(c *Ctx) {
 			if !ok {
 				return false
 			}
-			switch id.Name {
-			case "head", "tail", "results", "victims":
-				return true
+			// a local list of kept victims: []*Allocation declared in this function
+			if v, isVar := p.ObjOf(id).(*types.Var); isVar && !v.IsField() && v.Parent() != nil && v.Pkg() != nil && v.Parent() != v.Pkg().Scope() {
+				if sl, isSl := v.Type().Underlying().(*types.Slice); isSl && p.TypeName(sl.Elem()) == "objects.Allocation" {
+					return paramIndexOfObj(p, fn, v) < 0
+				}
 			}
 			return false
 		})
@@ -648,6 +673,10 @@ func rulesC08(c *Ctx) {
 		for _, ap := range aps {
 			if p.TypeName(p.TypeOf(ap.Args[1])) != "objects.Allocation" {
 				continue // append(head, tail...) merge
+			}
+			// only the lists filled by a loop that tentatively takes its element off the queue snapshot
+			if lp := p.enclosingLoop(ap); lp == nil || len(p.callsInNode(lp, "objects.QueuePreemptionSnapshot.RemoveAllocation")) == 0 {
+				continue
 			}
 			if ap.Ellipsis.IsValid() {
 				continue
@@ -701,7 +730,7 @@ func rulesC08(c *Ctx) {
 			// only the tentative removal of the loop's own element from its victim queue: the first removal of a
 			// loop body that goes on to test the guarantee (not the undo of a give to the ask queue, not the
 			// definitive removal of the victims already chosen for the node)
-			if rv, isID := loop.Value.(*ast.Ident); !isID || rv.Name != vic {
+			if rv, isID := loop.Value.(*ast.Ident); !isID || p.Src(rv) != vic {
 				continue
 			}
 			tentative, isFirst := false, true
@@ -988,4 +1017,17 @@ func posList(p *Prog, ns []ast.Node) string {
 		out = append(out, p.Pos(n))
 	}
 	return strings.Join(out, ", ")
+}
+
+// paramIndexOfObj: index of the parameter of fn that o denotes, -1 if it is not a parameter.
+func paramIndexOfObj(p *Prog, fn *Func, o types.Object) int {
+	for i := 0; ; i++ {
+		id := paramIdent(fn, i)
+		if id == nil {
+			return -1
+		}
+		if p.ObjOf(id) == o {
+			return i
+		}
+	}
 }
